@@ -29,6 +29,7 @@ class Inp:
         self.value = None         # 'acc <tree>' | 'none' | 'panic …' | 'lexerr' | 'hang'
         self.ms = 0
         self.odd_lexemes = 0      # leaves that are faulty xor zero-length
+        self.costs_first = None   # BO section: True = the harness called .term_costs(..) BEFORE .recoverer(..) for this input
         self.model = {}           # facts of the J section
         self.model_value = None
 
@@ -71,6 +72,8 @@ class RepResult:
             elif k == "I":
                 cur = Inp([int(x) for x in s[1:]])
                 self.inputs.append(cur)
+            elif k == "BO" and cur is not None and len(s) > 1:
+                cur.costs_first = s[1] == "1"
             elif k == "ER" and cur is not None:
                 cur.errors.append([int(s[1]), int(s[2]), int(s[3]), []])
             elif k == "RS" and cur is not None and cur.errors:
@@ -135,6 +138,13 @@ class RepResult:
                     if s0 == min(cyc):
                         res.append((tok, cyc))
         return res
+
+
+BUILDER_ORDER_RULE = ("the order of the builder's setter calls is an input of the `repair`/`stall` harness: "
+                      ".recoverer(CPCTPlus).term_costs(f) when (index of the input within its case line + number of lexemes of the "
+                      "input) is even, .term_costs(f).recoverer(CPCTPlus) when it is odd (reported per input in the BO section); the "
+                      "models know nothing about an order, so a result that depends on it (e.g. a cost function dropped by a later "
+                      "setter) shows as a difference on the inputs with non-unit costs")
 
 
 MODEL_ERR_CAP = 301       # the OCaml driver replays at most 300 errors per input and flags the rest as truncated
